@@ -147,6 +147,15 @@ def main():
             sh(["git", "-C", "/repo", "worktree", "remove", "--force", wt])
             shutil.rmtree(base, ignore_errors=True)
             sh(["git", "-C", "/repo", "worktree", "prune"])
+    if a.skip_confirm:
+        # keep what an earlier, complete run established about the change itself (demonstration, test suite)
+        try:
+            prev = json.load(open(os.path.join(d, "result.json")))
+            for k in ("confirmed", "demo_clean_exit", "demo_mutant_exit", "demo_mutant_tail", "tests_lost", "tests_pass_clean"):
+                if k in prev and k not in res:
+                    res[k] = prev[k]
+        except (OSError, ValueError):
+            pass
     with open(os.path.join(d, "result.json"), "w") as f:
         json.dump(res, f, indent=1, sort_keys=True)
     print(json.dumps({k: v for k, v in res.items() if k != "checks"}, indent=1))
